@@ -18,8 +18,7 @@ CUR = {}
 def install(ctx):
     from sedfitter.fit import Fitter
 
-    def init_post(self, filter_names, apertures, model_dir, extinction_law, av_range, distance_range,
-                  remove_resolved, use_memmap, result):
+    def init_post(self, result):
         ctx.event('Fitter.__init__:post')
         CUR['fitter_state'] = True
         return True
